@@ -6,6 +6,12 @@
 //! taken at every acquisition, at thread start and at thread end; the enabled set is computed
 //! from the tracked lock state (a thread is enabled iff its pending acquisition cannot block), so
 //! blocking is modelled exactly and "no enabled thread, not all finished" is a deadlock.
+//! std's futex RwLock is writer-preferring: a writer that has called write() while readers hold
+//! the lock blocks *new* read acquisitions (also a recursive one by a thread that already holds a
+//! read guard). The model has an explicit decision "thread t enters write() and blocks in it", after
+//! which reads of that lock are disabled until the writer got through — this is what makes a
+//! read-guard-held-across-an-inner-read deadlock visible (seeded change C17-D). On the unchanged
+//! tree no decision point lies inside a read section, so the extra choice never arises.
 //! Enumeration is by iterated preemption bound; each execution runs to completion; schedules are
 //! strings "t0,t1,…" of chosen thread ids, replayed exactly (divergence = machinery error).
 
@@ -39,6 +45,10 @@ pub struct Decision {
 struct State {
     status: Vec<Status>,
     pending: Vec<Option<(usize, LockOp)>>,
+    /// thread has called write() on a lock that is still held by readers: it is blocked inside the
+    /// lock, and (std's RwLock on this platform is writer-preferring) new read acquisitions of that
+    /// lock queue behind it
+    committed: Vec<bool>,
     current: Option<usize>,
     locks: HashMap<usize, LockState>,
     prefix: Vec<usize>,
@@ -68,6 +78,7 @@ impl Sched {
             st: Mutex::new(State {
                 status: vec![Status::NotStarted; n],
                 pending: vec![None; n],
+                committed: vec![false; n],
                 current: None,
                 locks: HashMap::new(),
                 prefix,
@@ -83,75 +94,91 @@ impl Sched {
         })
     }
 
-    fn enabled_of(st: &State, t: usize) -> bool {
-        match st.status[t] {
-            Status::Finished | Status::Running => false,
-            Status::NotStarted => false,
-            Status::Waiting => match st.pending[t] {
-                None => true,
-                Some((id, op)) => {
-                    let l = st.locks.get(&id).cloned().unwrap_or_default();
-                    match op {
-                        // std's RwLock is not re-entrant for writers; readers may share
-                        LockOp::Read => l.writer.is_none(),
-                        LockOp::Write => l.writer.is_none() && l.readers.is_empty(),
-                        _ => true,
-                    }
-                }
-            },
+    fn lock_free(st: &State, id: usize) -> bool {
+        st.locks.get(&id).map(|l| l.writer.is_none() && l.readers.is_empty()).unwrap_or(true)
+    }
+
+    /// the thread can perform its pending operation right now
+    fn can_run(st: &State, t: usize) -> bool {
+        if st.status[t] != Status::Waiting {
+            return false;
+        }
+        match st.pending[t] {
+            None => true,
+            Some((id, LockOp::Read)) => {
+                let no_writer = st.locks.get(&id).map(|l| l.writer.is_none()).unwrap_or(true);
+                // writer preference: a writer already blocked inside write() makes new readers wait
+                let blocked_writer = (0..st.status.len()).any(|u| u != t && st.committed[u] && matches!(st.pending[u], Some((l, LockOp::Write)) if l == id));
+                no_writer && !blocked_writer
+            }
+            Some((id, LockOp::Write)) => Self::lock_free(st, id),
+            Some(_) => true,
         }
     }
 
+    /// the thread can call write() now and block inside it (the lock is held by readers)
+    fn can_commit(st: &State, t: usize) -> bool {
+        st.status[t] == Status::Waiting && !st.committed[t] && matches!(st.pending[t], Some((id, LockOp::Write)) if !Self::lock_free(st, id))
+    }
+
     /// Called with the state locked by a thread that has just become Waiting / Finished: pick who runs next.
+    /// A choice is either "thread t performs its pending operation" or "thread t calls write() and blocks in it".
     fn decide(&self, st: &mut State, me: usize) {
         let n = st.status.len();
-        // canonical order: the thread that was running first (if enabled), then ascending ids
-        let mut enabled: Vec<usize> = vec![];
-        let me_enabled = Self::enabled_of(st, me);
-        if me_enabled {
-            enabled.push(me);
-        }
-        for t in 0..n {
-            if t != me && Self::enabled_of(st, t) {
-                enabled.push(t);
+        loop {
+            // canonical order: the thread that was running first (if it has a move), then ascending ids
+            let mut enabled: Vec<usize> = vec![];
+            let me_enabled = Self::can_run(st, me) || Self::can_commit(st, me);
+            if me_enabled {
+                enabled.push(me);
             }
-        }
-        if enabled.is_empty() {
-            if st.status.iter().any(|s| *s != Status::Finished) {
-                st.deadlock = true;
-                st.abort = true;
+            for t in 0..n {
+                if t != me && (Self::can_run(st, t) || Self::can_commit(st, t)) {
+                    enabled.push(t);
+                }
             }
-            st.current = None;
-            self.cv.notify_all();
-            return;
-        }
-        // observation at the decision point (only when no writer holds a tracked lock)
-        if st.locks.values().all(|l| l.writer.is_none()) {
-            if let Some(obs) = self.observer.lock().unwrap().as_ref() {
-                verif_hooks::set_scheduled_thread(false);
-                let v = obs();
-                verif_hooks::set_scheduled_thread(true);
-                st.observations.push(v);
-            }
-        }
-        let i = st.decisions.len();
-        let choice = if i < st.prefix.len() {
-            let c = st.prefix[i];
-            if c >= enabled.len() {
-                st.diverged = Some(format!("decision {i}: prefix asks for choice {c} of {} enabled", enabled.len()));
-                st.abort = true;
+            if enabled.is_empty() {
+                if st.status.iter().any(|s| *s != Status::Finished) {
+                    st.deadlock = true;
+                    st.abort = true;
+                }
                 st.current = None;
                 self.cv.notify_all();
                 return;
             }
-            c
-        } else {
-            0
-        };
-        let chosen = enabled[choice];
-        st.decisions.push(Decision { enabled, chosen: choice, running_enabled: me_enabled });
-        st.current = Some(chosen);
-        self.cv.notify_all();
+            // observation at the decision point (only when no writer holds a tracked lock)
+            if st.locks.values().all(|l| l.writer.is_none()) {
+                if let Some(obs) = self.observer.lock().unwrap().as_ref() {
+                    verif_hooks::set_scheduled_thread(false);
+                    let v = obs();
+                    verif_hooks::set_scheduled_thread(true);
+                    st.observations.push(v);
+                }
+            }
+            let i = st.decisions.len();
+            let choice = if i < st.prefix.len() {
+                let c = st.prefix[i];
+                if c >= enabled.len() {
+                    st.diverged = Some(format!("decision {i}: prefix asks for choice {c} of {} enabled", enabled.len()));
+                    st.abort = true;
+                    st.current = None;
+                    self.cv.notify_all();
+                    return;
+                }
+                c
+            } else {
+                0
+            };
+            let chosen = enabled[choice];
+            st.decisions.push(Decision { enabled, chosen: choice, running_enabled: me_enabled });
+            if Self::can_run(st, chosen) {
+                st.current = Some(chosen);
+                self.cv.notify_all();
+                return;
+            }
+            // the chosen thread enters write() and blocks there; decide again
+            st.committed[chosen] = true;
+        }
     }
 
     fn wait_turn<'a>(&'a self, mut st: std::sync::MutexGuard<'a, State>, me: usize) -> std::sync::MutexGuard<'a, State> {
@@ -228,6 +255,7 @@ impl Scheduler for Sched {
             LockOp::Write => l.writer = Some(me),
             _ => {}
         }
+        st.committed[me] = false;
         st.status[me] = Status::Running;
         st.pending[me] = None;
     }
